@@ -135,14 +135,14 @@ static bool run_ray(const RayCtx &cx, GridT &grid, const RayCase &rc, verif::Res
   volatile size_t ret = (size_t)-1;
   volatile bool done = false;
   {
-    TRAP_BEGIN(PFX + ":abort:interact" + kk, "abort in interact: " + rep, rep)
+    TRAP_BEGIN(PFX + ":crash:interact" + kk, "interact ends in cmac_error/abort or a memory fault: " + rep, rep)
     try {
       DensityGrid::iterator it = grid.interact(ph, rc.target);
       ret = it.get_index();
       done = true;
     } catch (const std::exception &e) {
       c16_jmp = nullptr;
-      R.violation(PFX + ":exception:interact" + kk, std::string("interact throws ") + e.what() + ": " + rep, rep);
+      R.violation(PFX + ":crash:interact" + kk, std::string("interact throws ") + e.what() + ": " + rep, rep);
     }
     TRAP_END
   }
